@@ -7,7 +7,8 @@ import Mathlib.Algebra.Ring.Basic
 import Qvnt.Lemmas.Queue
 import Qvnt.Lemmas.GenInt.int_append_int_eq
 import Qvnt.Lemmas.GenInt.int_ast_changes_eq
-import Qvnt.Lemmas.GenInt.macrosDisjoint_empty
+import Qvnt.Lemmas.GenInt.MacrosInv
+import Qvnt.Lemmas.GenMacro.KeysNodup
 
 set_option linter.unusedSectionVars false
 namespace Qvnt.Gen2
@@ -16,11 +17,11 @@ variable {R : Type}
 section proc
 variable [Add R] [Sub R] [Mul R] [Neg R] [Div R] [ExprFns R] [AngleFns R]
 
-/-- `add_ast`: the translated function is the model's, for every session and chunk (the chunk's delta starts empty) -/
-theorem int_add_ast_eq [Zero R] [One R] [Consts R] (s : Interp R) (ast : List (Node R)) :
+/-- `add_ast`: the translated function is the model's, for every session whose gate names are unique (which add_ast preserves) and every chunk (the chunk's delta starts empty) -/
+theorem int_add_ast_eq [Zero R] [One R] [Consts R] (s : Interp R) (hs : KeysNodup s.macros) (ast : List (Node R)) :
     int_add_ast s ast = (Interp.addAst s ast).toE := by
   unfold int_add_ast Interp.addAst
-  simp only [int_ast_changes_eq s {} (macrosDisjoint_empty s)]
+  simp only [int_ast_changes_eq s {} (macrosInv_empty s hs)]
   cases Interp.astChanges s {} ast with
   | ok ch => simp [Res.toE, Except.bind, int_append_int_eq]
   | err e => rfl
